@@ -211,22 +211,28 @@ def _decode(env, data):
 
 def _render_all(env, entries, datas, allowed, labels):
     s = _setup()
-    for name in entries:
-        for data in datas:
-            try:
-                args = _decode(env, data)
-                t = env.get_template(name)
-                if env.is_async:
-                    asyncio.run(t.render_async(args))
-                else:
-                    t.render(args)
-                labels.add("render_ok")
-            except s["jinja2"].TemplateSyntaxError:
-                labels.add("render_syntax_error")
-            except RecursionError:
-                labels.add("render_recursion")
-            except allowed:
-                labels.add("render_error")
+    loop = asyncio.new_event_loop() if env.is_async else None  # one loop per case, closed before returning
+    try:
+        for name in entries:
+            for data in datas:
+                try:
+                    args = _decode(env, data)
+                    t = env.get_template(name)
+                    if loop is not None:
+                        loop.run_until_complete(t.render_async(args))
+                    else:
+                        t.render(args)
+                    labels.add("render_ok")
+                except s["jinja2"].TemplateSyntaxError:
+                    labels.add("render_syntax_error")
+                except RecursionError:
+                    labels.add("render_recursion")
+                except allowed:
+                    labels.add("render_error")
+    finally:
+        if loop is not None:
+            loop.run_until_complete(loop.shutdown_asyncgens())
+            loop.close()
 
 
 class _RecData(dict):
@@ -754,6 +760,8 @@ def local_datas(draw, pool=POOL, n=3):
 # ---------------------------------------------------------------------------------------------------------
 # case strategies
 
+_ASYNC = (False,) * 7 + (True,)
+
 
 def _thin(data, keep_every, offset):
     """A copy of the data with some of the plain value keys removed (structural keys -- flags, template names --
@@ -775,7 +783,7 @@ def _thin(data, keep_every, offset):
 @st.composite
 def stmt_cases(draw, max_depth=4, max_nodes=25):
     prog = draw(G.programs(max_depth, max_nodes, errors=draw(st.integers(0, 3)) == 0))
-    return {"kind": "stmt", "prog": prog, "datas": draw(G.datas(3)), "async": draw(st.integers(0, 7)) == 0}
+    return {"kind": "stmt", "prog": prog, "datas": draw(G.datas(3)), "async": draw(st.sampled_from(_ASYNC))}
 
 
 @st.composite
@@ -785,14 +793,14 @@ def set_cases(draw, which, size=3):
     else:
         c = draw(tsets.module_sets(max_libs=3, size=size))
     d = c["data"]
-    return {"kind": "set", "ir": c["ir"], "datas": [d, _thin(d, 2, 0), _thin(d, 2, 1)], "async": draw(st.integers(0, 7)) == 0}
+    return {"kind": "set", "ir": c["ir"], "datas": [d, _thin(d, 2, 0), _thin(d, 2, 1)], "async": draw(st.sampled_from(_ASYNC))}
 
 
 @st.composite
 def local_cases(draw, budget=14):
     s = draw(local_sets(POOL, budget))
     return {"kind": "src", "templates": s["templates"], "entries": s["entries"], "datas": draw(local_datas(POOL, 3)),
-            "globals": {"g": "G"}, "async": draw(st.integers(0, 7)) == 0}
+            "globals": {"g": "G"}, "async": draw(st.sampled_from(_ASYNC))}
 
 
 # ---------------------------------------------------------------------------------------------------------
